@@ -18,7 +18,7 @@
 //!   VERIFY                    redzone / poison scan of every G/H block of the process -> ok|errs
 //!   RETURN|bits               (inside an IMPORT event only)
 //!   QUIT
-//! <report> = obs=key=term;…|allocs=addr:size:align:tag:live,…|frees=addr:size:align:tag:by:old,…
+//! <report> = obs=key=term;…|allocs=addr:size:align:tag:live:idx,…|frees=addr:size:align:tag:by:old:idx,…
 //!            |errs=kind:addr:size:align:expsize:expalign,…|notes=…;…
 use crate::alloc::{self, Mark, TAG_G, TAG_X};
 use crate::term::{self, Term};
@@ -85,6 +85,13 @@ pub fn stash(v: Box<dyn std::any::Any>) -> usize {
     })
 }
 
+/// record the current allocation index under a name (`mark:<name>:<index>` in the notes): lets the peer
+/// count events of a sub-phase of a request
+pub fn phase_mark(name: &str) {
+    let n = alloc::mark().n;
+    harness(|| srv().notes.push(format!("mark:{name}:{n}")))
+}
+
 /// free-form trace record (user-level drops, …)
 pub fn note(s: String) {
     harness(|| srv().notes.push(s))
@@ -126,13 +133,13 @@ fn report(m: Mark, obs_from: usize, notes_from: usize) -> String {
     let notes = s.notes[notes_from..].join(";");
     let allocs: Vec<String> = alloc::allocated_since(m)
         .iter()
-        .filter(|e| e.tag != TAG_X)
-        .map(|e| format!("{}:{}:{}:{}:{}", e.addr, e.size, e.align, e.tag as char, e.live))
+        .filter(|(_, e)| e.tag != TAG_X)
+        .map(|(i, e)| format!("{}:{}:{}:{}:{}:{}", e.addr, e.size, e.align, e.tag as char, e.live, i))
         .collect();
     let frees: Vec<String> = alloc::freed_since(m)
         .iter()
-        .filter(|(e, _)| e.tag != TAG_X)
-        .map(|(e, old)| format!("{}:{}:{}:{}:{}:{}", e.addr, e.size, e.align, e.tag as char, e.freed_by as char, *old as u8))
+        .filter(|(e, _, _)| e.tag != TAG_X)
+        .map(|(e, old, i)| format!("{}:{}:{}:{}:{}:{}:{}", e.addr, e.size, e.align, e.tag as char, e.freed_by as char, *old as u8, i))
         .collect();
     let mut errs: Vec<String> = alloc::errors_since(m)
         .iter()
